@@ -132,7 +132,11 @@ class Polyhedron(Shape3D):
 
     def __init__(self, vertices, faces, faces_are_convex=None):
         self._vertices = np.array(vertices, dtype=np.float64)
-        self._faces = [face for face in faces]
+        # Copy each face: sort_faces reorders faces in place, and later edits of the
+        # caller's index arrays must not reach into this polyhedron.
+        self._faces = [
+            face.copy() if hasattr(face, "copy") else list(face) for face in faces
+        ]
         if faces_are_convex is None:
             faces_are_convex = all(len(face) == 3 for face in faces)
         self._faces_are_convex = faces_are_convex
